@@ -57,8 +57,13 @@ def _t0_literals():
                 pats = [n.value.value for n in ast.walk(fn) if isinstance(n, ast.Assign) and getattr(n.targets[0], "id", "") == "pattern"
                         and isinstance(n.value, ast.Constant)]
                 calls = [ast.unparse(n) for n in ast.walk(fn) if isinstance(n, ast.Call) and ast.unparse(n.func) == "re.findall"]
-                if len(pats) != 1 or calls != ["re.findall(pattern, self.http_opt['url'])"]:
-                    raise ValueError("Method.path_params: pattern = r'...'; re.findall(pattern, self.http_opt['url']) not found")
+                urls = [ast.unparse(n.value) for n in ast.walk(fn) if isinstance(n, ast.Assign) and getattr(n.targets[0], "id", "") == "url"]
+                guards = [ast.unparse(n.test) for n in ast.walk(fn) if isinstance(n, ast.If) and ast.unparse(n.body[0]) == "return []"]
+                # since /repo 9c45d02: url = self.http_opt['url']; a primary rule without a standard pattern (url not a str) names no parameter
+                if (len(pats) != 1 or calls != ["re.findall(pattern, url)"] or urls != ["self.http_opt['url']"]
+                        or guards != ["self.http_opt is None", "not isinstance(url, str)"]):
+                    raise ValueError("Method.path_params: url = self.http_opt['url']; guard on non-string url; pattern = r'...'; "
+                                     "re.findall(pattern, url) not found")
                 out["PATH_PARAMS_RE_src"] = pats[0]
             if cls.name == "HttpRule" and fn.name == "try_parse_http_rule":
                 cmp_ = [ast.unparse(n) for n in ast.walk(fn) if isinstance(n, ast.If) and "custom" in ast.unparse(n.test)]
@@ -908,6 +913,56 @@ def run_witnesses(ctx):
     return jobs, results
 
 
+CRASH_SIG = "http.custom_primary_required_field"
+
+
+def crash_api():
+    """Witness of finding C04-custom-primary-required-field: a custom primary rule, a standard additional binding and a
+    request message with REQUIRED fields."""
+    f = apigen.File("google/example/tc/v1/tc.proto", A.PKG, deps=list(apigen.STD_DEPS))
+    rep = f.message("Reply"); rep.field("ok", 1, "bool")
+    q = f.message("QRequest"); q.field("name", 1, "string", required=True).field("size", 2, "int32", required=True)
+    svc = f.service(A.SVC, host="tc.example.com")
+    svc.rpc("Q", q.fqn, rep.fqn, http=("get", "/v1/placeholder"), more_http=[("get", "/v1/{name=items/*}:q", None)])
+    cp = svc.proto.method[-1].options.Extensions[annotations_pb2.http].custom
+    cp.kind, cp.path = "HEAD", "/v1/q"
+    return apigen.request([f])
+
+
+def run_gated_witnesses(ctx):
+    """Inputs that hit a finding which is not registered yet are run only once findings/known_findings.json lists the
+    signature (the default run stays clean until the coordinator has decided)."""
+    try:
+        listed = {x.get("signature") for x in json.load(open(os.path.join(env.VERIF, "findings", "known_findings.json"))) if x.get("property") == "C04"}
+    except FileNotFoundError:
+        listed = set()
+    ctx.notes["gated_witnesses"] = {CRASH_SIG: CRASH_SIG in listed}
+    if CRASH_SIG not in listed:
+        return
+    req = crash_api()
+    out, err = gen.run_generator(gen.with_params(req, ["transport=grpc+rest"]))
+    case = {"request_b64": apigen.req_b64(req), "numeric": False, "methods": [(m["name"], m["rule"], m["more"]) for m in A.schema_of(req)]}
+    ctx.case({"gated": CRASH_SIG}, nontrivial=True, feature="gated-witness")
+    if out is None:
+        last = err.strip().splitlines()[-1][:300] if err.strip() else ""
+        ctx.violation(f"generation fails for a method with a custom primary rule, a standard additional binding and REQUIRED request fields: {last}",
+                      case, CRASH_SIG if "CustomHttpPattern" in last else None)
+        return
+    # generation works (fixed): the additional binding must be usable over REST
+    d = dyn.Dyn(req)
+    job = {"idx": 950, "numeric": False, "req": req, "ncalls": 1, "families": ["normal"], "seed_tag": "gated",
+           "fixed": {"Q": [d.b64(d.new(A.PKG + ".QRequest", name="items/i", size=3))]}}
+    before = len(ctx.violations)
+    res = run_library(job)
+    for c in res["calls"]:
+        if not c["ok"]:
+            ctx.violation(f"Q: client raised {c['error']['exception']}: {c['error']['message'][:160]} although binding get /v1/{{name=items/*}}:q applies", case, None)
+        elif [h["path"] for h in c["http"]] != ["/v1/items/i:q"]:
+            ctx.violation(f"Q: sent {[h['verb'] + ' ' + h['path'] for h in c['http']]} instead of GET /v1/items/i:q", case, None)
+    if res["error"]:
+        ctx.violation(f"custom-primary witness: {res['error'][:300]}", case, None)
+
+
 def run_corpus(ctx):
     """corpus/C04/*.json: recorded (API, option, method, request) cases, grouped per API and driven first."""
     d = os.path.join(env.VERIF, "corpus", "C04")
@@ -943,6 +998,7 @@ def run(ctx):
     run_contract(ctx, ctx.n(4, 60), ctx.n(6, 10)); lap("contract")
     run_witnesses(ctx); lap("witnesses")
     run_corpus(ctx); lap("corpus")
+    run_gated_witnesses(ctx); lap("gated")
     jobs = make_jobs(ctx, ctx.n(6, 150), ctx.n(6, 8))
     results = gen.pmap(run_library, jobs); lap("generate+drive")
     evaluate(ctx, jobs, results, "e2e"); lap("evaluate")
